@@ -113,9 +113,9 @@ def object_events(entry, enc, tid0, rng, quick, run):
                         "raised": o is None, "out": fec.limbs(o if o is not None and o >= 0 else 0, k) if o is not None else [0],
                         "errs": fec.limbs(errs[i], n) if (errs is not None and errs[i] is not None and errs[i] >= 0 and o is not None) else [-1]})
             run.case((entry.name, dname, m, e), nontrivial=e != 0)
-        # the same received words as float64 / int64 tensors (first 64 cases): a decoder may reject the dtype, but an answer must not differ
+        # the same received words as float64 / integer / boolean / half-precision tensors (first 64 cases): a decoder may reject the dtype, but an answer must not differ
         sub = min(len(cases), 64)
-        for dt in (torch.float64, torch.int64):
+        for dt in (torch.float64, torch.int64, torch.uint8, torch.int8, torch.bool, torch.float16, torch.bfloat16):
             try:
                 o2, _ = _decode_all(dec, R[:sub].to(dt), k, want_errors=False)
             except Exception:
